@@ -258,14 +258,17 @@ func genBadDep(t *rapid.T) BadDep {
 	switch class {
 	case "unterminated-bracket":
 		tail = rapid.SampledFrom([]string{
+			name + "[" + a1, name + "[!" + a1, name + "(" + op + ver + ")[" + a1,
 			name + " [" + a1, name + " [" + a1 + " " + a2, name + " [!" + a1, name + " (" + op + " " + ver + ") [" + a1, name + " [", name + " [" + a1 + " ",
 		}).Draw(t, "v")
 	case "unterminated-paren":
 		tail = rapid.SampledFrom([]string{
 			name + " (" + op + " " + ver, name + " (" + op, name + " (", name + " (" + op + " ", name + " [" + a1 + "] (" + op + " " + ver,
+			name + "(" + op + ver, name + "(" + op, name + "[" + a1 + "](" + op + ver,
 		}).Draw(t, "v")
 	case "unterminated-profile":
 		tail = rapid.SampledFrom([]string{
+			name + "<" + p1, name + "<!" + p1, name + "[" + a1 + "]<" + p1,
 			name + " <" + p1, name + " <" + p1 + " " + p2, name + " <!" + p1, name + " <", name + " <" + p1 + "> <" + p2, name + " <" + p1 + " ",
 		}).Draw(t, "v")
 	case "unterminated-substvar":
@@ -324,7 +327,10 @@ func genBadDep(t *rapid.T) BadDep {
 	}
 	text := prefix + tail
 	if suffixOK && rapid.Bool().Draw(t, "hasSuffix") {
-		text += rapid.SampledFrom([]string{", ", ", ", ",", " | ", "|"}).Draw(t, "join") + renderDep(genDepAST(t, "suf", 2, 2, true), canonicalSpacer)
+		// the relations that follow, in the customary or in the tightest spelling (no blank anywhere
+		// one is optional): a closer further right must not be borrowed however close it stands
+		sufSp := rapid.SampledFrom([]Spacer{canonicalSpacer, canonicalSpacer, fixedSchemes["S10-tight"], fixedSchemes["S1-minimal"]}).Draw(t, "sufSp")
+		text += rapid.SampledFrom([]string{", ", ", ", ",", " | ", "|"}).Draw(t, "join") + renderDep(genDepAST(t, "suf", 2, 2, true), sufSp)
 	}
 	return BadDep{Text: text, Class: class}
 }
